@@ -15,6 +15,7 @@ import tempfile
 import random
 import lib
 import c14gen as g
+import c14ctx
 from lib import esc, unesc
 
 BIN = "c14"
@@ -304,6 +305,7 @@ def run(ctx):
     res = evaluate(ctx, a, True) + evaluate(ctx, b, False)
     for r in res:
         judge(ctx, r, nviol)
+    context_sweep(ctx, nviol)
     for r in res[corpus_n:corpus_n + 2] + res[-2:]:
         ctx.sample({"source": r["src"], "printed": unesc(r["h"].get("P1", "%")), "features": sorted(r["fs"])})
     ctx.cov["rule"] = ("function bodies drawn from the program grammar (every compound command, redirect kinds and counts with "
@@ -316,9 +318,125 @@ def run(ctx):
                         "behaviour is compared on scripted leaves (helper functions p/n, echo, redirections into a scratch directory)"]
 
 
+# ------------------------------------------------------------------------------------------------
+# context sweep: defined anywhere, printed by every printer in every context, re-read by every reader
+
+# new defect classes met by the sweep: (clause, predicate on (failure kind, clause feature, option))
+SWEEP_CLAUSES = [
+    ("alias_in_body_expanded_at_call", lambda kind, feat, j: j[4] == "alias_in_body" and kind.startswith("reader:child_bash")),
+    ("command_V_ignores_functions", lambda kind, feat, j: feat == "printer_command_V"),
+    ("export_f_lists_variables", lambda kind, feat, j: feat == "export_listing"),
+    ("exported_function_attribute_not_shown", lambda kind, feat, j: feat == "export_attr"),
+    # `$( … case x in pat) … esac … )`: the `)` of a pattern written without its `(` ends the substitution
+    ("case_pattern_ends_command_substitution",
+     lambda kind, feat, j: kind == "not_defined" and j[3] == "cmdsubst" and j[1] % 2 == 0 and "k_case" in g.features(j[0])),
+]
+
+
+def sweep_jobs(ctx):
+    """(tree, style, hdr, define, option, has_self): every define context and every option; in-domain trees only"""
+    rng = random.Random(ctx.seed * 104729 + 5)
+    combos = []
+    if ctx.quick:
+        for i in range(ctx.size(100, 0)):
+            combos.append((c14ctx.DEFINES[i % len(c14ctx.DEFINES)],
+                           c14ctx.OPTIONS[(i * 7 + i // len(c14ctx.DEFINES)) % len(c14ctx.OPTIONS)][0]))
+    else:
+        for rep in range(6):
+            for dname in c14ctx.DEFINES:
+                for oname, _ in c14ctx.OPTIONS:
+                    combos.append((dname, oname))
+    jobs = []
+    i = 0
+    while len(jobs) < len(combos):
+        G = g.Gen(rng, rng.randint(2, 10))
+        t = G.fdef()
+        if feats(t) & {"heredoc", "multiline_word"}:      # recorded clauses (a multi-line word gets indented as soon as an
+            # import wraps the body in braces): covered by the top-level families only
+            continue
+        define, option = combos[len(jobs)]
+        has_self = False
+        st = c14ctx.self_tree(t)
+        if st is not None and i % 2 == 0:
+            t, has_self = st, True
+        if option == "alias_in_body":
+            at = c14ctx.alias_tree(t)
+            if at is None:
+                option = "expand_aliases"
+            else:
+                t = at
+        jobs.append((t, i % 6, i % 3, define, option, has_self))
+        i += 1
+    return jobs
+
+
+def sweep_case(j):
+    return {"ctx": True, "tree": enc(j[0]), "style": j[1], "hdr": j[2], "define": j[3], "option": j[4], "has_self": j[5]}
+
+
+def sweep_judge(ctx, j, src, res, m, nviol):
+    md = dict(x.split("=", 1) for x in m.split(" ") if "=" in x)
+    fails, notes = c14ctx.judge_one(res, unesc(md["P"]) if "P" in md else None, unesc(md["W"]) if "W" in md else None,
+                                    j[3], j[4], j[5])
+    ctx.count(("ctx", src, j[3], j[4]), nontrivial=True, bucket="ctx_sweep")
+    ctx.bucket("ctx_define_" + j[3])
+    ctx.bucket("ctx_option_" + j[4])
+    for n_ in notes:
+        ctx.bucket("ctx_note_" + n_.split("/")[0])
+    if "bash_does_not_define_here" not in notes and "timeout" not in notes:
+        ctx.impl_validated += 1
+    case = dict(sweep_case(j), source=src)
+    seen = set()
+    for kind, feat, what, detail in fails:
+        clause = next((c for c, pred in SWEEP_CLAUSES if pred(kind, feat, j)), None)
+        d = {"failure": kind, "define_context": j[3], "option": j[4], "detail": detail}
+        if clause is not None:
+            ctx.known_or_violation(clause, what, case, d)
+        elif (kind.split("/")[0]) not in seen and nviol[0] < 10:
+            seen.add(kind.split("/")[0])
+            nviol[0] += 1
+            ctx.violation("[context sweep: defined %s, option %s] %s" % (j[3], j[4], what), case, d)
+    return fails
+
+
+def context_sweep(ctx, nviol):
+    jobs = sweep_jobs(ctx)
+    outs = lib.pmap(c14ctx.run_one, jobs, workers=min(lib.NCPU, 8))
+    mouts = lib.run_drv_parallel(["C14 " + g.wire(j[0]) for j in jobs], workers=min(lib.NCPU, 8))
+    for j, (src, res), m in zip(jobs, outs, mouts):
+        sweep_judge(ctx, j, src, res, m, nviol)
+    if jobs:
+        ctx.sample({"context_sweep": {"define": jobs[0][3], "option": jobs[0][4], "source": outs[0][0]}})
+    ctx.cov["context_sweep"] = ("%d sampled in-domain trees, each DEFINED in one of %d places (%s) under one of %d option settings (%s), "
+                                "PRINTED by %d printers (%s; after export also %s) in %d contexts (%s, plus an EXIT trap and the function printing "
+                                "itself) and RE-READ by eval, source, a function that sources, a command substitution, a child brush and a child "
+                                "bash (and brush's text by bash; bash's export by a child brush); the same script text runs under bash"
+                                % (len(jobs), len(c14ctx.DEFINES), ", ".join(c14ctx.DEFINES), len(c14ctx.OPTIONS),
+                                   ", ".join(o for o, _ in c14ctx.OPTIONS), len(c14ctx.PRINTERS), ", ".join(c for _, c in c14ctx.PRINTERS),
+                                   ", ".join(c for _, c in c14ctx.EXPORT_PRINTERS), len(c14ctx.CONTEXTS), ", ".join(c14ctx.CONTEXTS)))
+
+
+def replay_sweep(ctx, case):
+    j = (dec(case["tree"]), case["style"], case["hdr"], case["define"], case["option"], case["has_self"])
+    src, res = c14ctx.run_one(j)
+    m = lib.run_drv(["C14 " + g.wire(j[0])])[0]
+    md = dict(x.split("=", 1) for x in m.split(" ") if "=" in x)
+    fails, notes = c14ctx.judge_one(res, unesc(md["P"]), unesc(md["W"]), j[3], j[4], j[5])
+    print("defined: %s   option: %s\nsource:\n%s" % (j[3], j[4], src))
+    print("brush `declare -f f` there:\n%s\nbash:\n%s" % (res["brush"].get("o_declare_f_name_top"), res["bash"].get("o_declare_f_name_top")))
+    for kind, feat, what, detail in fails:
+        print("FAILS [%s]: %s\n   %s" % (kind, what, detail))
+    print("notes:", notes)
+    if not fails:
+        print("property holds on this case")
+    return 1 if fails else 0
+
+
 def replay(ctx, rp):
     ok, out = lib.cargo_build([BIN])
     case = rp["case"]
+    if case.get("ctx"):
+        return replay_sweep(ctx, case)
     t = dec(case["tree"])
     c = [("replay", t, case.get("style", 0), case.get("norun", False))]
     r = evaluate(ctx, c, True)[0]
